@@ -71,6 +71,11 @@ TARGETS = [
                1: dict(name='EX', frame=['count', 'SQ_N', 'L_LEN', 'G_IN_HEAP', 'G_IN_LIST', 'GT', 'OT', 'G_CLASS', 'FRONT_', 'N_LOCKS', 'th', 'N_DEQ', 'DEQ_STATE'],
                        effects={'sleepq_front': ['OT', 'FRONT_'], 'rs_lock': ['GT', 'OT', 'G_CLASS', 'N_LOCKS'], 'rs_unlock': ['GT', 'OT', 'N_LOCKS'], 'sleepq_pop_front': ['SQ_N', 'G_IN_HEAP', 'FRONT_'],
                                 'ith_dequeue_ready_atomic': ['GT', 'OT', 'N_DEQ', 'DEQ_STATE'], 'list_push_back': ['L_LEN', 'G_IN_LIST']}, pure=['sleepq_empty'], ptr_targets={'th': ['GT', 'OT']})}),
+    Target('th_min', TH, r'inline uint64_t min\(uint64_t a, uint64_t b\)'),
+    Target('idle_wait', TH, r'auto usec = 10 \* 1024 \* 1024; // max', region_end=r'\n\s*\}\s*return nullptr;', rules=[
+        (r'auto& sleepq = vcpu->sleepq;', ';', 1), (r'sleepq\.empty\(\)', 'sleepq_empty(vcpu)', 1), (r'sleepq\.front\(\)', 'sleepq_front(vcpu)', 1),
+        (r'(?<![\w>.])min\(', 'photon_min(', 1),
+        (r'vcpu->master_event_engine->wait_and_fire_events\(', 'engine_wait_and_fire_events(vcpu, ', 1)]),
     Target('shutdown_usleep', TH, r'static int do_shutdown_usleep\(Timeout timeout, RunQ rq\)', rules=[
         (r'timeout\.timeout_at_most\(', 'Timeout_at_most(&timeout, ', 1)]),
     Target('shutdown_usleep_defer', TH, r'static int do_shutdown_usleep_defer\(Timeout timeout,\s*defer_func defer, void\* defer_arg, RunQ rq\)', rules=[
@@ -100,6 +105,7 @@ PROOFS = [
     Proof('interrupt/dispatch', 'sched.c', 'h_interrupt', kind='L', defines=['STUB_PRELOCKED'], min_obligations=5),
     Proof('prepare_usleep', 'sched.c', 'h_prepare_usleep', kind='L', min_obligations=6),
     Proof('resume_pass', 'sched.c', 'h_resume_threads', kind='L', min_obligations=8, expect_loops=2, aux_violation=True),
+    Proof('idle_wait', 'sched.c', 'h_idle_wait', kind='L', min_obligations=3),
     Proof('shutdown_cap', 'sleep.c', 'h_shutdown', kind='L', min_obligations=3),
     Proof('sleepq/push_n6', 'sleep.c', 'h_heap', kind='B', defines=['HN=7', 'OP=0'], unwind=10, bound='at most 6 sleepers before the operation, all 64-bit deadlines', timeout=900, mem_gb=16),
     Proof('sleepq/push_n14', 'sleep.c', 'h_heap', kind='B', defines=['HN=15', 'OP=0'], unwind=18, bound='at most 14 sleepers before the operation, all 64-bit deadlines', timeout=3000, mem_gb=24, tier='thorough'),
